@@ -82,14 +82,14 @@ def external(d: dict[str, Any], idx: int) -> Any:
         return int(c)
     if d["k"] == "float":
         return float(c)
-    return d["choices"][idx]
+    return real_choices(d)[idx]
 
 
 def index_of(d: dict[str, Any], v: Any) -> int | None:
     cs = spec_cands(d)
     if d["k"] == "cat":
-        for i, c in enumerate(d["choices"]):
-            if type(c) is type(v) and c == v:
+        for i, c in enumerate(real_choices(d)):
+            if type(c) is type(v) and (c == v or (isinstance(c, float) and c != c and v != v)):
                 return i
         return None
     for i, c in enumerate(cs):
@@ -134,7 +134,21 @@ def prog_for_driver(p: dict[str, Any]) -> dict[str, Any]:
 # generators
 # ---------------------------------------------------------------------------------------------
 
-CAT_POOL = ["a", "b", "cc", "relu", 2, 3, 7, 0.5, 1.5, None, "x y", ""]
+NAN_TOKEN = "__nan__"   # stands for float("nan") in cases (cases must stay strict JSON); a legal categorical choice
+NAN = float("nan")
+CAT_POOL = ["a", "b", "cc", "relu", 2, 3, 7, 0.5, 1.5, None, "x y", "", NAN_TOKEN, NAN_TOKEN]
+
+
+def sample_choices(r: random.Random, n: int) -> list[Any]:
+    out: list[Any] = []
+    for c in r.sample(CAT_POOL, min(n + 1, len(CAT_POOL))):
+        if not any(type(c) is type(o) and c == o for o in out) and len(out) < n:
+            out.append(c)
+    return out
+
+
+def real_choices(d: dict[str, Any]) -> list[Any]:
+    return [NAN if c == NAN_TOKEN else c for c in d["choices"]]
 STEPS = ["0.1", "0.25", "0.3", "0.5", "1.0", "2.5", "0.05", "0.7", "1.5"]
 
 
@@ -173,7 +187,7 @@ class ProgGen:
             nm = "c%d" % i
             self.kinds[nm] = "cat"
             n = r.choice([1, 2, 2, 3, 3, 4])
-            self.cats[nm] = r.sample(CAT_POOL, n)
+            self.cats[nm] = sample_choices(r, n)
 
     def leaf(self) -> dict[str, Any]:
         return {"leaf": self.r.choices(["complete", "pruned", "fail", "raise"], [60, 15, 15, 10])[0]}
@@ -334,7 +348,7 @@ def make_objective(p: dict[str, Any], cuts: dict[int, tuple], anomalies: list[An
             elif d["k"] == "float":
                 v = trial.suggest_float(node["name"], float(d["low"]), float(d["high"]), step=float(d["step"]))
             else:
-                v = trial.suggest_categorical(node["name"], d["choices"])
+                v = trial.suggest_categorical(node["name"], real_choices(d))
             nsug += 1
             i = index_of(d, v)
             if i is None:
@@ -374,7 +388,7 @@ def run_bf_real(case: dict[str, Any]) -> dict[str, Any]:
             elif d["k"] == "float":
                 t.suggest_float(name, float(d["low"]), float(d["high"]), step=float(d["step"]))
             else:
-                t.suggest_categorical(name, d["choices"])
+                t.suggest_categorical(name, real_choices(d))
     pre_calls = len(rec.calls)
     cuts = {c[0]: tuple(c[1:]) for c in case["cuts"]}
     anomalies: list[Any] = []
@@ -912,7 +926,7 @@ def check_enum(chk: core.Check, n: int, only: list[dict[str, Any]] | None = None
     ds = []
     for _ in range(n):
         kind = r.choice(["int", "float", "float", "cat"])
-        ds.append(gen_dist(r, kind, r.sample(CAT_POOL, r.randint(1, 5)), 0.15))
+        ds.append(gen_dist(r, kind, sample_choices(r, r.randint(1, 5)), 0.15))
     # hand-picked edge cases: the last grid point, decimal steps that are not binary fractions
     ds += [{"k": "float", "low": "0.1", "high": "1.0", "step": "0.3"}, {"k": "float", "low": "0.0", "high": "0.3", "step": "0.1"},
            {"k": "float", "low": "1.0", "high": "3.0", "step": "0.5"}, {"k": "float", "low": "-0.7", "high": "0.7", "step": "0.7"},
@@ -927,7 +941,7 @@ def check_enum(chk: core.Check, n: int, only: list[dict[str, Any]] | None = None
         elif d["k"] == "float":
             dist = FloatDistribution(float(d["low"]), float(d["high"]), step=float(d["step"]))
         else:
-            dist = CategoricalDistribution(d["choices"])
+            dist = CategoricalDistribution(real_choices(d))
         real = list(_enumerate_candidates(dist))
         spec = spec_cands(d)
         chk.count("enum:" + d["k"])
@@ -1304,7 +1318,7 @@ def main(chk: core.Check) -> int:
     chk.assumptions += [
         "sequential optimize (n_jobs=1) on the in-memory storage; trial numbers are dense",
         "parameter values cross the protocol as candidate indices / exact decimals; float(Decimal) rounding is outside the model",
-        "categorical choices are pairwise different under ==; no parameter name is suggested twice with different distributions on one path",
+        "categorical choices are pairwise different under == (a single NaN choice is allowed: it equals itself under the NaN-aware comparison the sampler uses since the repair of F38); no parameter name is suggested twice with different distributions on one path",
         "the default mode (avoid_premature_stop=False) is claimed only for studies without RUNNING trials left by dead workers "
         "(documented looser criterion; Lean counter-witness stale_running_default_mode_stops_early replayed each run)",
         "a KeyboardInterrupt that hits between two suggest calls of one trial is outside the theorem (Lean counter-witness "
